@@ -106,6 +106,32 @@ func vfApplySurgery(frames [][]byte, op vfSurgery, filler []byte) (stream []byte
 			}
 		}
 		return out, op.Frame + 1, false
+	case "splice-body":
+		// frame op.Frame keeps its (masked) length field but gets the sealed body of
+		// the earlier frame op.Other: a replay that the length obfuscation cannot see
+		var out []byte
+		for i, f := range frames {
+			if i == op.Frame {
+				out = append(out, f[:2]...)
+				out = append(out, frames[op.Other][2:]...)
+			} else {
+				out = append(out, f...)
+			}
+		}
+		return out, op.Frame, false
+	case "swap-length-fields":
+		var out []byte
+		for i, f := range frames {
+			switch i {
+			case op.Frame:
+				out = append(append(out, frames[op.Frame+1][:2]...), f[2:]...)
+			case op.Frame + 1:
+				out = append(append(out, frames[op.Frame][:2]...), f[2:]...)
+			default:
+				out = append(out, f...)
+			}
+		}
+		return out, op.Frame, false
 	case "truncate":
 		return append([]byte(nil), orig[:op.Off]...), frameAt(op.Off), true
 	}
@@ -215,10 +241,31 @@ func vfGenSurgery(rt *rapid.T, lens []int) vfSurgery {
 	for _, l := range lens {
 		total += l
 	}
-	kinds := []string{"flip", "flip", "flip", "insert", "delete", "dropframe", "dupframe", "swap", "replay", "truncate"}
+	kinds := []string{"flip", "flip", "flip", "insert", "delete", "dropframe", "dupframe", "swap", "replay", "truncate", "splice-body", "splice-body", "swap-length-fields"}
 	k := rapid.SampledFrom(kinds).Draw(rt, "surgery")
 	f := rapid.IntRange(0, m-1).Draw(rt, "frame")
 	switch k {
+	case "splice-body":
+		if m < 2 {
+			return vfSurgery{Kind: "dropframe", Frame: f}
+		}
+		f = rapid.IntRange(1, m-1).Draw(rt, "spliceAt")
+		// prefer an earlier frame of the same wire length (the length field then fits)
+		var same []int
+		for e := 0; e < f; e++ {
+			if lens[e] == lens[f] {
+				same = append(same, e)
+			}
+		}
+		if len(same) > 0 && rapid.IntRange(0, 3).Draw(rt, "spliceSameLen") > 0 {
+			return vfSurgery{Kind: k, Frame: f, Other: same[rapid.IntRange(0, len(same)-1).Draw(rt, "spliceFrom")]}
+		}
+		return vfSurgery{Kind: k, Frame: f, Other: rapid.IntRange(0, f-1).Draw(rt, "spliceFromAny")}
+	case "swap-length-fields":
+		if m < 2 {
+			return vfSurgery{Kind: "dropframe", Frame: f}
+		}
+		return vfSurgery{Kind: k, Frame: rapid.IntRange(0, m-2).Draw(rt, "swapLenAt")}
 	case "flip":
 		var bit int
 		switch rapid.IntRange(0, 3).Draw(rt, "flipRegion") {
@@ -259,7 +306,7 @@ func vfSpecLens(specs []vfFrameSpec) []int {
 func TestVerifC05Surgery(t *testing.T) {
 	vfSetup(t)
 	c := ev.For("C05")
-	c.Rule("surgery: the real client or server (victim) reads a stream produced by the reference peer: 1-7 generated frames (payload 0/1/1427/random, padding, unknown types, seed packets) followed by three genuine full frames; one surgery op in {flip one bit (length field, tag, body), insert 1-64 bytes, delete 1-64 bytes, drop / duplicate / swap whole frames, replay an earlier frame, truncate}; the tampered stream is released in generated segments without EOF, reader buffer size generated; oracle: delivered bytes are always a prefix of the peer's payload and never exceed the payload of the frames that arrived intact before the first damaged frame; for every op but truncation Read has reported a non-EOF error by the time everything is read; no panic; non-trivial = at least one intact payload frame before and one frame after the damage; fingerprint = frames, op, chunk plan")
+	c.Rule("surgery: the real client or server (victim) reads a stream produced by the reference peer: 1-7 generated frames (payload 0/1/1427/random, padding, unknown types, seed packets) followed by three genuine full frames; one surgery op in {flip one bit (length field, tag, body), insert 1-64 bytes, delete 1-64 bytes, drop / duplicate / swap whole frames, replay an earlier frame, splice the sealed body of an earlier (preferably equally long) frame behind a later frame's length field, swap two length fields, truncate}; the tampered stream is released in generated segments without EOF, reader buffer size generated; oracle: delivered bytes are always a prefix of the peer's payload and never exceed the payload of the frames that arrived intact before the first damaged frame; for every op but truncation Read has reported a non-EOF error by the time everything is read; no panic; non-trivial = at least one intact payload frame before and one frame after the damage; fingerprint = frames, op, chunk plan")
 	c.Assume("Poly1305 forgery probability is negligible")
 	c.Floor("victim-client", 0.3)
 	c.Floor("victim-server", 0.3)
@@ -464,7 +511,7 @@ func FuzzVerifC05TamperedStream(f *testing.F) {
 	for _, l := range lens {
 		total += l
 	}
-	kinds := []string{"flip", "insert", "delete", "dropframe", "dupframe", "swap", "replay", "truncate"}
+	kinds := []string{"flip", "insert", "delete", "dropframe", "dupframe", "swap", "replay", "truncate", "splice-body", "swap-length-fields"}
 	br := vfBridge{ID: refobfs4.NewIdentity(vfEnt(55)(52)), Seed: vfEnt(56)(24)}
 	f.Fuzz(func(t *testing.T, in []byte) {
 		if len(in) < 8 {
@@ -487,6 +534,13 @@ func FuzzVerifC05TamperedStream(f *testing.F) {
 			op.Frame = int(in[1]) % (len(specs) - 1)
 		case "replay":
 			op.Other = int(in[6]) % (op.Frame + 1)
+		case "splice-body":
+			if op.Frame == 0 {
+				op.Frame = 1
+			}
+			op.Other = int(in[6]) % op.Frame
+		case "swap-length-fields":
+			op.Frame = int(in[1]) % (len(specs) - 1)
 		case "truncate":
 			op.Off = v % total
 		}
